@@ -253,6 +253,25 @@ func main() {
 					add(call.Lparen, 1, "")
 					needRT = true
 					lockSites++
+				case "(*sync.Pool).Get", "(*sync.Pool).Put":
+					// whether a pool hands out a recycled object or makes a new one
+					// depends on what the process did before and on the garbage
+					// collector; in the copy it is a choice of the run's tape, and
+					// every run starts with empty pools
+					recv := "&("
+					if _, isPtr := info.TypeOf(sel.X).(*types.Pointer); isPtr {
+						recv = "("
+					}
+					fnName := "vsimrt.PoolGet("
+					tail := ")"
+					if sel.Sel.Name == "Put" {
+						fnName = "vsimrt.PoolPut("
+						tail = "), "
+					}
+					add(call.Pos(), 0, fnName+recv)
+					add(sel.X.End(), fset.Position(call.Lparen).Offset+1-fset.Position(sel.X.End()).Offset, tail)
+					needRT = true
+					lockSites++
 				case "(*sync.Once).Do":
 					recv := "&("
 					if _, isPtr := info.TypeOf(sel.X).(*types.Pointer); isPtr {
